@@ -76,3 +76,157 @@ Proof.
   - apply H.
   - rewrite Rabs_pos_eq by lra. eapply Rle_lt_trans; [apply Hr|]. apply bpow_lt. unfold emax. lia.
 Qed.
+
+(* ---------- (2^63 as f64 * p) as u64 <= 2^63 - 1 for every f64 p < 1 ---------- *)
+From DS Require Import Base.FloatBits.
+
+Definition M63 : PF.float := float_of_Z63 9223372036854775807.
+
+Lemma M63_SF : Prim2SF M63 = S754_finite false 4503599627370496 11.
+Proof. vm_compute. reflexivity. Qed.
+
+Lemma M63_B : B2R (Prim2B M63) = bpow radix2 63 /\ is_finite (Prim2B M63) = true /\ Bsign (Prim2B M63) = false.
+Proof.
+  pose proof (B2SF_Prim2B M63) as H. rewrite M63_SF in H.
+  destruct (Prim2B M63) as [s|s| |s m e Hb]; cbn in H; try discriminate.
+  inversion H. subst. cbn. unfold F2R. cbn. split; [lra|split; reflexivity].
+Qed.
+
+Lemma M63_form : exists m e Hb, Prim2B M63 = B754_finite false m e Hb.
+Proof.
+  pose proof (B2SF_Prim2B M63) as H. rewrite M63_SF in H.
+  destruct (Prim2B M63) as [s|s| |s m e Hb]; cbn in H; try discriminate.
+  inversion H. subst. eexists _, _, Hb. reflexivity.
+Qed.
+
+(* truncation toward zero of a finite float whose value is at most the integer T >= 0 *)
+Lemma trunc_sat_le : forall (b : binary_float prec emax) mx T, (0 <= T)%Z -> is_finite b = true ->
+  (B2R b <= IZR T)%R ->
+  (match B2SF b with
+   | S754_zero _ => 0
+   | S754_nan => 0
+   | S754_infinity s => if s then 0 else mx
+   | S754_finite s m e =>
+       let mag := if (0 <=? e)%Z then (Zpos m * 2 ^ e)%Z else (Zpos m / 2 ^ (- e))%Z in
+       let v := if s then (- mag)%Z else mag in
+       if (v <? 0)%Z then 0 else if (mx <? v)%Z then mx else v
+   end <= T)%Z.
+Proof.
+  intros b mx T HT Hf Hle. destruct b as [s|s| |s m e Hb]; cbn [B2SF]; try discriminate; try lia.
+  cbv zeta. cbn [B2R] in Hle.
+  set (mag := if (0 <=? e)%Z then (Zpos m * 2 ^ e)%Z else (Zpos m / 2 ^ (- e))%Z).
+  assert (Hmag0 : (0 <= mag)%Z).
+  { unfold mag. destruct (0 <=? e)%Z eqn:E.
+    - apply Z.leb_le in E. assert (0 < 2 ^ e)%Z by (apply Z.pow_pos_nonneg; lia). lia.
+    - apply Z.leb_gt in E. apply Z.div_pos; [lia|]. apply Z.pow_pos_nonneg; lia. }
+  destruct s.
+  - (* negative: the result is clamped at 0 *)
+    destruct (Z.ltb_spec (- mag) 0); [lia|]. destruct (Z.ltb_spec mx (- mag)); lia.
+  - assert (Hmag : (IZR mag <= F2R (Float radix2 (Zpos m) e))%R).
+    { unfold mag, F2R. cbn [Fnum Fexp cond_Zopp]. destruct (0 <=? e)%Z eqn:E.
+      - apply Z.leb_le in E. rewrite mult_IZR. rewrite (IZR_Zpower radix2) by exact E. apply Rle_refl.
+      - apply Z.leb_gt in E.
+        replace e with (- (- e))%Z at 2 by lia. rewrite bpow_opp.
+        assert (Hd : (0 < 2 ^ (- e))%Z) by (apply Z.pow_pos_nonneg; lia).
+        rewrite <- (IZR_Zpower radix2) by lia. change (radix2 ^ (- e))%Z with (2 ^ (- e))%Z.
+        pose proof (Z.div_mod (Zpos m) (2 ^ (- e)) ltac:(lia)) as Hdm.
+        pose proof (Z.mod_pos_bound (Zpos m) (2 ^ (- e)) Hd) as Hmb.
+        apply (Rmult_le_reg_r (IZR (2 ^ (- e)))); [apply IZR_lt; exact Hd|].
+        rewrite Rmult_assoc, Rinv_l, Rmult_1_r by (apply not_0_IZR; lia).
+        rewrite <- mult_IZR. apply IZR_le. lia. }
+    cbn [cond_Zopp] in Hle.
+    assert (mag <= T)%Z by (apply le_IZR; lra).
+    destruct (Z.ltb_spec mag 0); [lia|]. destruct (Z.ltb_spec mx mag); lia.
+Qed.
+
+Lemma pred_one : pred radix2 (SpecFloat.fexp prec emax) 1 = (1 - bpow radix2 (-53))%R.
+Proof.
+  change 1%R with (bpow radix2 0). rewrite pred_bpow. f_equal.
+Qed.
+
+Theorem starting_theta_le : forall p, PF.ltb p PF.one = true ->
+  (Z_of_float_trunc_sat 0 18446744073709551615 (PF.mul M63 p) <= 9223372036854775807)%Z.
+Proof.
+  intros p Hlt. unfold Z_of_float_trunc_sat. rewrite <- B2SF_Prim2B, mul_equiv.
+  destruct M63_B as [MR [MF MS]]. destruct M63_form as [mM [eM [HbM EM]]].
+  rewrite ltb_equiv in Hlt. rewrite EM in *.
+  set (bM := B754_finite false mM eM HbM) in *. set (bp := Prim2B p) in *.
+  assert (H1R : B2R (Prim2B PF.one) = 1%R) by apply one_B2R.
+  assert (Hgoal : forall b : binary_float prec emax,
+            (is_finite b = true /\ (B2R b <= IZR 9223372036854774784)%R) \/ B2SF b = S754_infinity true \/ (exists s, B2SF b = S754_zero s) ->
+            (match B2SF b with
+             | S754_zero _ => 0 | S754_nan => 0
+             | S754_infinity s => if s then 0 else 18446744073709551615
+             | S754_finite s m e =>
+                 let mag := if (0 <=? e)%Z then (Zpos m * 2 ^ e)%Z else (Zpos m / 2 ^ (- e))%Z in
+                 let v := if s then (- mag)%Z else mag in
+                 if (v <? 0)%Z then 0 else if (18446744073709551615 <? v)%Z then 18446744073709551615 else v
+             end <= 9223372036854775807)%Z).
+  { intros b [[Hf Hle]|[Hi|[s Hz]]].
+    - pose proof (trunc_sat_le b 18446744073709551615 9223372036854774784 ltac:(lia) Hf Hle). lia.
+    - rewrite Hi. lia.
+    - rewrite Hz. lia. }
+  apply Hgoal. clear Hgoal.
+  destruct bp as [sp|sp| |sp mp ep Hbp] eqn:Ebp.
+  - (* p = +-0 *)
+    right. right. unfold bM. cbn. eexists. reflexivity.
+  - (* infinity *)
+    destruct sp.
+    + right. left. unfold bM. reflexivity.
+    + exfalso. rewrite one_equiv in Hlt. cbn in Hlt. discriminate.
+  - exfalso. rewrite one_equiv in Hlt. cbn in Hlt. discriminate.
+  - (* finite *)
+    assert (Hpf : is_finite (B754_finite sp mp ep Hbp) = true) by reflexivity.
+    rewrite (Bltb_correct prec emax _ _ Hpf one_finite) in Hlt. rewrite H1R in Hlt.
+    apply Rlt_bool_true_iff in Hlt || idtac.
+    assert (Hr : (B2R (B754_finite sp mp ep Hbp) < 1)%R).
+    { destruct (Rlt_bool_spec (B2R (B754_finite sp mp ep Hbp)) 1); [assumption|discriminate]. }
+    set (r := B2R (B754_finite sp mp ep Hbp)) in *.
+    pose proof (Bmult_correct prec emax Hprec Hmax mode_NE bM (B754_finite sp mp ep Hbp)) as HM.
+    fold r in HM. rewrite MR in HM.
+    assert (Hrle : (bpow radix2 63 * r <= IZR 9223372036854774784)%R).
+    { assert (Fr : generic_format radix2 (SpecFloat.fexp prec emax) r) by apply generic_format_B2R.
+      assert (F1 : generic_format radix2 (SpecFloat.fexp prec emax) 1).
+      { change 1%R with (bpow radix2 0). apply generic_format_bpow. unfold SpecFloat.fexp, emin, prec, emax. lia. }
+      pose proof (pred_ge_gt radix2 (SpecFloat.fexp prec emax) r 1 Fr F1 Hr) as Hp. rewrite pred_one in Hp.
+      assert (ET : IZR 9223372036854774784 = (bpow radix2 63 - bpow radix2 10)%R).
+      { change (bpow radix2 63) with (IZR 9223372036854775808). change (bpow radix2 10) with (IZR 1024).
+        rewrite <- minus_IZR. reflexivity. }
+      rewrite ET.
+      replace (bpow radix2 63 - bpow radix2 10)%R with (bpow radix2 63 * (1 - bpow radix2 (-53)))%R.
+      - apply Rmult_le_compat_l; [apply bpow_ge_0|exact Hp].
+      - rewrite Rmult_minus_distr_l, Rmult_1_r, <- bpow_plus. reflexivity. }
+    assert (FT : generic_format radix2 (SpecFloat.fexp prec emax) (IZR 9223372036854774784)).
+    { replace (IZR 9223372036854774784) with (F2R (Float radix2 9007199254740991 10)).
+      - apply generic_format_canonical. unfold canonical. cbn [Fexp]. unfold cexp.
+        rewrite (mag_unique radix2 _ 63).
+        + unfold SpecFloat.fexp, emin, prec, emax. lia.
+        + unfold F2R. cbn [Fnum Fexp]. rewrite Rabs_pos_eq.
+          * split.
+            -- change (bpow radix2 (63 - 1)) with (IZR 4611686018427387904). change (bpow radix2 10) with (IZR 1024).
+               rewrite <- mult_IZR. apply IZR_le. lia.
+            -- change (bpow radix2 63) with (IZR 9223372036854775808). change (bpow radix2 10) with (IZR 1024).
+               rewrite <- mult_IZR. apply IZR_lt. lia.
+          * apply Rmult_le_pos; [apply IZR_le; lia|apply bpow_ge_0].
+      - unfold F2R. cbn [Fnum Fexp]. change (bpow radix2 10) with (IZR 1024). rewrite <- mult_IZR. reflexivity. }
+    set (q := round radix2 (SpecFloat.fexp prec emax) (round_mode mode_NE) (bpow radix2 63 * r)) in *.
+    assert (Hq : (q <= IZR 9223372036854774784)%R).
+    { unfold q. rewrite <- (round_generic radix2 (SpecFloat.fexp prec emax) (round_mode mode_NE) _ FT).
+      apply round_le; auto with typeclass_instances. }
+    destruct (Rlt_bool_spec (Rabs q) (bpow radix2 emax)) as [Hno|Hov].
+    + left. destruct HM as [HR [HF _]]. split; [rewrite HF, MF; reflexivity|rewrite HR; exact Hq].
+    + (* overflow: only towards -infinity *)
+      right. left. rewrite HM. rewrite MS. cbn [xorb]. unfold binary_overflow, overflow_to_inf.
+      destruct sp; [reflexivity|exfalso].
+      (* positive p: q <= 2^63 - 2^10 and q >= 0 *)
+      assert (Hr0 : (0 <= r)%R).
+      { unfold r. cbn [B2R]. apply F2R_ge_0. cbn. lia. }
+      assert (Hq0 : (0 <= q)%R).
+      { unfold q. rewrite <- (round_0 radix2 (SpecFloat.fexp prec emax) (round_mode mode_NE)).
+        apply round_le; auto with typeclass_instances. apply Rmult_le_pos; [apply bpow_ge_0|exact Hr0]. }
+      rewrite Rabs_pos_eq in Hov by exact Hq0.
+      assert (IZR 9223372036854774784 < bpow radix2 emax)%R.
+      { eapply Rlt_trans; [|apply (bpow_lt radix2 63 emax); unfold emax; lia].
+        change (bpow radix2 63) with (IZR 9223372036854775808). apply IZR_lt. lia. }
+      lra.
+Qed.
